@@ -1037,6 +1037,25 @@ func (e *Env) csGenOp(w *csWorld, o csObs, now *big.Int, prop string) csOp {
 	return op
 }
 
+// csBrokenInvariants evaluates every invariant registered with the crisis keeper and returns the broken routes.
+func csBrokenInvariants(a *app.Canto, ctx sdk.Context) map[string]bool {
+	out := map[string]bool{}
+	for _, ir := range a.CrisisKeeper.Routes() {
+		func() {
+			defer func() {
+				if r := recover(); r != nil {
+					out[ir.FullRoute()+" (panic)"] = true
+				}
+			}()
+			cctx, _ := ctx.CacheContext()
+			if _, broken := ir.Invar(cctx); broken {
+				out[ir.FullRoute()] = true
+			}
+		}()
+	}
+	return out
+}
+
 func runCoinswap(e *Env, prop string) {
 	e.Header("From Coq Require Import ZArith List.\nFrom Canto Require Import Model.Coinswap Check.Common Check.CoinswapCheck.\nImport ListNotations.\nOpen Scope Z_scope.\n")
 	e.Stats.Rule = "case = random valid coinswap params (fee 0 / 0.003 / 0.5 / 1-1ulp / 1ulp / random; creation fee+tax on and off; caps tiny..2^250; whitelist subsets) + funded users (magnitudes 1..5, 1..1e3, 1..1e9, k*2^j up to 2^200) + history of messages through the real message server (sell, buy both directions, add, remove, donations to escrows, onboarding-style keeper-level buys, live parameter changes, invalid/malformed messages), amounts aimed at every bound (just met / just missed) computed from the live pool state; recipients incl. module accounts and escrows, upper-case bech32; after every message the complete tracked bank projection (users, 4 escrows, 4 module accounts x 9 denoms + supplies), pools, sequence, params and decoded response are compared with the model and fed to the monitors; a digest of every untracked balance/supply must not change; non-trivial = at least one accepted pool operation; distinct by hash of the accepted-operation sequence"
@@ -1100,6 +1119,9 @@ func runCoinswap(e *Env, prop string) {
 				e.Stats.ImplFailures = append(e.Stats.ImplFailures, ImplFailure{Case: c, Step: -1, Monitor: "module-account-not-blocked", Detail: m})
 			}
 		}
+		// the chain's registered accounting invariants (crisis routes): those that hold at the start of the case must keep
+		// holding after every message (C02); evaluated per route so that one broken route does not hide another
+		brokenAtStart := csBrokenInvariants(a, ctx)
 		obs := w.observe(ctx)
 		initTerm := csObsTerm(w, obs)
 		now := new(big.Int).Add(TimeNs(GenesisTime), big.NewInt(e.Rng.Int63n(1_000_000_000)))
@@ -1143,6 +1165,16 @@ func runCoinswap(e *Env, prop string) {
 			if after.other != obs.other {
 				e.Stats.ImplFailures = append(e.Stats.ImplFailures, ImplFailure{Case: c, Step: i, Monitor: "untracked-balance-changed",
 					Detail: "a balance or supply outside the tracked accounts/denominations changed during a coinswap message"})
+			}
+			if prop == "C02" {
+				for route := range csBrokenInvariants(a, ctx) {
+					if !brokenAtStart[route] {
+						e.Stats.ImplFailures = append(e.Stats.ImplFailures, ImplFailure{Case: c, Step: i, Monitor: "registered-invariant-broken",
+							Detail: "crisis invariant " + route + " held before the history and is broken after this coinswap message"})
+						brokenAtStart[route] = true // report once per case
+					}
+				}
+				e.Stats.Count("invariant-routes-evaluated")
 			}
 			res := "None"
 			if ok {
